@@ -56,19 +56,9 @@ func (d *Driver) getServerCapabilities() ([]byte, error) {
 		defer close(cr)
 
 		b, err := d.Channel.ReadUntilPrompt(ctx)
-		if err != nil {
-			cr <- &result{b: b, err: err}
-		}
 
-		if ctx.Err() != nil {
-			// timer expired, we're already done, nobody will be listening for our send anyway
-			return
-		}
-
-		cr <- &result{
-			b:   b,
-			err: nil,
-		}
+		// the caller always receives exactly once, so always send exactly once
+		cr <- &result{b: b, err: err}
 	}()
 
 	r := <-cr
